@@ -280,14 +280,15 @@ impl Graph {
                     fixup_dups = true;
                     println!(
                         "n2: warn: {}: {:?} is repeated in output list",
-                        build.location, f.name,
+                        build.location,
+                        String::from_utf8_lossy(f.name.as_bytes()),
                     );
                 }
                 Some(prev) => {
                     anyhow::bail!(
                         "{}: {:?} is already an output at {}",
                         build.location,
-                        f.name,
+                        String::from_utf8_lossy(f.name.as_bytes()),
                         self.builds[prev].location
                     );
                 }
